@@ -712,6 +712,14 @@ static char *read_file(char *path) {
     fputc('\n', out);
   fputc('\0', out);
   fclose(out);
+
+  // The text is handled as a C string from here on. A NUL byte inside
+  // the file would end it for some passes (line splicing, newline
+  // conversion) but not for others (comment skipping), so it is read
+  // as white space, which is how gcc treats it outside literals.
+  for (size_t i = 0; i + 1 < buflen; i++)
+    if (buf[i] == '\0')
+      buf[i] = ' ';
   return buf;
 }
 
